@@ -16,7 +16,7 @@ use std::collections::BTreeMap;
 use std::net::IpAddr;
 
 pub const RULE: &str = "fib-histories: cases = 1..20 steps over a 3-shard TableManager with an observed KernelHandle, 3 eBGP peers, 10 prefixes (IPv4 and IPv6), 2 path ids, 6 attribute variants (ties and non-ties before the router-id step), 4 shared next hops: \
-insert_route (new / replace with another next hop / replace with other attributes), remove_route, peer loss, graceful-restart stale marking and stale purge, soft_reset_in after an import-policy change (filtering and un-filtering paths), next-hop reachability reports, \
+insert_route (new / replace with another next hop / replace with other attributes), remove_route, peer loss, graceful-restart stale marking and stale purge, soft_reset_in after an import-policy change (filtering and un-filtering paths), next-hop reachability reports, locally originated (API) and redistributed kernel paths inserted and removed with the same next hops (they are selected and installed like any other path but hold no registration), \
 and reachability reports scheduled inside an insert (between its read of the unreachable set and its shard lock). \
 Oracle after every step: (1) replaying all FIB requests so far gives, per prefix, exactly the next-hop set of the RIB's current best path and the paths tied with it before the router-id step (none if there is no eligible path); \
 (2) registrations minus unregistrations per address == number of peer-learned paths in the RIB whose next hop is that address, never negative; (3) no selected path has a next hop currently reported unreachable. \
@@ -104,6 +104,8 @@ fn op_kind(op: &TmOp) -> &'static str {
         TmOp::Unsubscribe(_) => "unsubscribe",
         TmOp::InsertLocal { .. } => "insert-local",
         TmOp::RemoveLocal { .. } => "remove-local",
+        TmOp::MarkLlgrStale { .. } => "mark-llgr-stale",
+        TmOp::DropLlgrStale { .. } => "drop-llgr-stale",
     }
 }
 
@@ -181,7 +183,12 @@ fn check_with(c: &Case, vrfs: bool) -> CheckResult {
         // ---- registrations --------------------------------------------------------
         let (pre, _) = tmv::rib_views(&rig.tm);
         let mut uses: BTreeMap<IpAddr, i64> = BTreeMap::new();
-        for (_, (nh, _)) in pre.iter() {
+        for (k, (nh, _)) in pre.iter() {
+            // locally originated and redistributed kernel paths (source address 0.0.0.0) are not
+            // tracked: only paths learned from a peer hold a registration
+            if k.starts_with("0.0.0.0|") {
+                continue;
+            }
             if let Some(nh) = nh {
                 *uses.entry(nh.addr()).or_default() += 1;
             }
@@ -214,6 +221,8 @@ fn arb_op() -> impl Strategy<Value = TmOp> {
         1 => (0u8..N_PEERS).prop_map(|peer| TmOp::DropStale { peer }),
         2 => (0u8..N_PEERS, 0u8..3).prop_map(|(peer, policy)| TmOp::SoftResetIn { peer, policy }),
         4 => (0u8..N_NH, any::<bool>()).prop_map(|(nh, reachable)| TmOp::NhReach { nh, reachable }),
+        2 => (0u8..2, 0u8..N_PREFIX, 0u8..6, 0u8..N_NH).prop_map(|(kind, prefix, attrs, nh)| TmOp::InsertLocal { kind, prefix, attrs, nh }),
+        1 => (0u8..2, 0u8..N_PREFIX).prop_map(|(kind, prefix)| TmOp::RemoveLocal { kind, prefix }),
     ]
 }
 
@@ -225,7 +234,7 @@ pub fn arb_case(max: usize) -> impl Strategy<Value = Case> {
     // few prefixes per case so that paths meet
     (0u8..N_PREFIX, proptest::collection::vec(step, 1..max)).prop_map(|(base, mut steps)| {
         for s in steps.iter_mut() {
-            if let TmOp::Insert { prefix, .. } | TmOp::Remove { prefix, .. } = &mut s.op {
+            if let TmOp::Insert { prefix, .. } | TmOp::Remove { prefix, .. } | TmOp::InsertLocal { prefix, .. } | TmOp::RemoveLocal { prefix, .. } = &mut s.op {
                 *prefix = base + (*prefix % 3);
             }
         }
